@@ -21,11 +21,16 @@ type Search struct {
 	// Check evaluates the property's clause bundle on one concrete input (which is
 	// thereby also the end-of-input transition of the state it reaches).
 	Check func(in []byte)
+	// Complete (optional) extends an input to a text the REFERENCE accepts (nil if it
+	// has none); it is checked next to the input itself, so an implementation that
+	// wrongly dies on a byte meets a document it must accept.
+	Complete func(in []byte) []byte
 	// Verdict (optional) is a cheap class used by the bisimulation audit.
 	Verdict func(in []byte) string
 
 	States, Transitions, Cuts, DeadEdges int64
 	AuditedKeys, AuditPairs              int64
+	Completions                          int64
 }
 
 type rep struct {
@@ -66,6 +71,12 @@ func (s *Search) Run() {
 				t++
 				if w.Mine(t) {
 					s.Check(in)
+					if s.Complete != nil {
+						if c := s.Complete(in); c != nil {
+							s.Completions++
+							s.Check(c)
+						}
+					}
 				}
 				k, d, dead := s.Key(in)
 				if dead {
@@ -129,6 +140,9 @@ func (s *Search) Run() {
 		w.Count(s.Name+".transitions", s.Transitions)
 		w.Count(s.Name+".frontier_cuts", s.Cuts)
 		w.Count(s.Name+".dead_edges", s.DeadEdges)
+	}
+	if s.Complete != nil {
+		w.Count(s.Name+".reference_completions_checked", s.Completions)
 	}
 	w.Count(s.Name+".bisimulation_audit_keys", s.AuditedKeys)
 	w.Count(s.Name+".bisimulation_audit_pairs", s.AuditPairs)
